@@ -43,8 +43,6 @@ def well_formed(tree):
                 return False
             if p['default'][0] == 'nested':
                 return False
-            if p['default'][0] == 't' and len(p['default'][1]) == 0:
-                return False
     return True
 
 
@@ -97,8 +95,14 @@ def expected(case):
     return {'funcs': entries, 'flat': flat, 'array': array, 'lagarr': lagarr, 'callnames': callnames}
 
 
+def has_empty_tuple(tree):
+    return any(p['default'][0] == 't' and len(p['default'][1]) == 0 for f in preorder(tree) for p in f['params'])
+
+
 def check(case, out):
     bad = []
+    if has_empty_tuple(case['tree']):
+        return bad      # zero-width controls: outside the property's quantifier, judged by the model only
     if not well_formed(case['tree']):
         if out.get('err', 0) == 0:
             bad.append(('C04:invalid-signature-accepted', 'an invalid signature was built without an exception'))
